@@ -213,6 +213,30 @@ for _k, _v in ROUND8.items():
     CHECKS[_k]["text"] = CHECKS[_k]["text"] + _v
 
 
+ROUND9 = {
+    "C01": " (Ninth round: no change was needed.)",
+    "C02": " NetCDF tables with cells the file itself marks missing; empty lines between CSV records.",
+    "C03": " A read written next to another field and used again.",
+    "C04": " CvtToFuzzy at the limits of double precision.",
+    "C05": " A large variable stored as grid and as vector read with a frequent missing value; CSV tables with empty lines.",
+    "C06": " A field without a valid cell; crisp fields made by CvtToFuzzyCat from whole numbers, then Not.",
+    "C07": " Fields of rank 0; copies of complete fields (also plain arrays) divided.",
+    "C10": " Commas where a list begins; non-ASCII twin files loaded one after the other; values with tabs delivered through the tool.",
+    "C11": " Equal thresholds written out and left out.",
+    "C12": " Bare True / False where numbers are declared; valid models through the tool started in the file's directory.",
+    "C13": " The tool started in the file's directory by bare name and as ./name; messages of failures whose texts hold braces.",
+    "C14": " Metadata in front of the references; rings of report commands.",
+    "C15": " Brace and dollar strings; list values as tuples; saved strings delivered through the tool.",
+    "C16": " Result-less commands under MPilot names; a column read under its own name given twice.",
+    "C17": " Tables updated in place; refused writes; headers not in composed normal form; the tool started in the file's directory.",
+    "C18": " Grids beyond 2^20 cells; the tool through a symbolic link; plain re-reads around every third read.",
+    "C19": " Derived metaclasses; underscore modules of packages; exit status of valid CSV models run with -l.",
+    "C20": " The root directory as working directory; large arrays cleaned before and after a model printed its variables.",
+}
+for _k, _v in ROUND9.items():
+    CHECKS[_k]["text"] = CHECKS[_k]["text"] + _v
+
+
 def main():
     props = [json.loads(l) for l in open(os.path.join(VERIF, "properties.jsonl"))]
     checks = []
